@@ -56,6 +56,25 @@ theorem result_decode_encode (sv : List Val) (b : Bytes)
     decodeStruct AbiTuples.tupleRecvPacketResultData AbiTuples.resultSchema b = some sv :=
   decode_encode _ _ sv b result_tagsMatch result_covers hty hu hp hsz
 
+/-! ### the decode / encode METHODS do nothing but Pack, resp. Unpack + the JSON round trip -/
+
+/-- regenerated from the method bodies of packet.go: no statement after (or between) Unpack, json.Marshal, json.Unmarshal
+    touches a field, and ABIPack is a bare Arguments.Pack — so the round-trip theorems below are about the methods themselves -/
+theorem abiDecode_is_pure_roundtrip : ∀ b ∈ AbiTuples.bindings, b.decodePure = true ∧ b.packPure = true := by decide
+
+/-- encode (decode b) = b for the canonical bytes, hence the commitment recomputed from the decoded value is the hash of b -/
+theorem reencode_struct (L : Layout) (S : Schema) (sv : List Val) (b : Bytes)
+    (ht : TagsMatch L S) (hc : Covers L S) (hty : sv.map Val.ty = S.map (·.ty)) (hu : ∀ v ∈ sv, strOk v = true)
+    (hp : packStruct L S sv = some b) (hsz : b.length < 2 ^ 256) :
+    (decodeStruct L S b).bind (packStruct L S) = some b := by
+  rw [decode_encode L S sv b ht hc hty hu hp hsz]; exact hp
+
+theorem commitment_of_decoded (hash : Bytes → Bytes) (L : Layout) (S : Schema) (sv : List Val) (b : Bytes)
+    (ht : TagsMatch L S) (hc : Covers L S) (hty : sv.map Val.ty = S.map (·.ty)) (hu : ∀ v ∈ sv, strOk v = true)
+    (hp : packStruct L S sv = some b) (hsz : b.length < 2 ^ 256) :
+    ((decodeStruct L S b).bind (packStruct L S)).map hash = some (hash b) := by
+  rw [reencode_struct L S sv b ht hc hty hu hp hsz]; rfl
+
 /-! ### EventSendPacket: only the `packet` bytes are part of the tuple (no `Covers`, by design) -/
 theorem eventLayout_wf : AbiTuples.tuplePacketSendData.WF := by decide
 theorem event_tagsMatch : TagsMatch AbiTuples.tuplePacketSendData AbiTuples.eventSendPacketSchema := by decide
